@@ -1861,6 +1861,7 @@ class Memoer(Tymee):
             zvz = 3 * zvz // 4
             zaz = 3 * zaz // 4
             zoz = 3 * zoz // 4
+            noz = 3 * noz // 4  # non-zeroth overhead is also smaller in base2
             zcodeb = decodeB64(zcodeb)  # convert to base2 bytes
             ncodeb = decodeB64(ncodeb)  # convert to base2 bytes
             midb = decodeB64(midb)  # convert to base2 bytes
